@@ -22,6 +22,7 @@ def run(tier, seed):
     EC.mc_verdict(res, PROP, runs, ["WorkersBound", "FailBound"])
     tl = [C.gen_tasks("fail", n, seed + 300, opcode_frac=opfrac), C.gen_tasks("retry", n, seed + 301, opcode_frac=opfrac),
           C.gen_tasks("plain", n // 3, seed + 302, opcode_frac=opfrac)]
+    tl.append(C.wide_fail_tasks(seed, 500 if tier == "quick" else 15000))
     EC.campaign(res, PROP, tl,
                 "executions with in-flight accounting (start/end events of every attempt), failing and flaky calls "
                 "(fail on the first j attempts), retry in {1,2,3}, max_errors in {None,0,1,2}, W from 1 to n+1; "
